@@ -4,6 +4,8 @@ QV.Model.Stats — model of the streaming statistics of observables:
  * `ObservableBase.statistics_from_samples`   qucumber/observables/observable.py:223-249
  * `ObservableBase.statistics`                qucumber/observables/observable.py:135-221
  * `System.statistics`                        qucumber/observables/system.py:31-125
+ * `System.__init__` (dictionary keyed by `obs.name`), `System.statistics_from_samples`   system.py:29-30, 128-150
+ * `ObservableBase.sample`                    qucumber/observables/observable.py:107-133
 
 The variance of fewer than two values is `none` (Python: `nan`), never `x / 0`.
 `nn_state.sample` is an external, random call: it is a parameter (`Env.samp`, indexed by the call number so that
@@ -204,6 +206,48 @@ def sysStatistics (env : Env σ) (fs : List (σ → List α)) (a : Args σ) :
       | .error e => .error e
       | .ok ss => .ok (ss, ds.map (·.1))
 
+/-- `ObservableBase.sample(nn_state, k, num_samples, initial_state, overwrite)` (observable.py:107-133): ONE sampler
+call that receives exactly the caller's four arguments, and the observable applied to the tensor it returns. -/
+def obsSample (env : Env σ) (f : σ → List α) (k numSamples : Nat) (init : Option σ) (overwrite : Bool) :
+    List α × SampleCall σ :=
+  let call : SampleCall σ := ⟨numSamples, k, init, overwrite⟩
+  (f (env.samp 0 call), call)
+
 end schedule
+
+/-! ### `System`: the dictionary of observables keyed by name -/
+
+section system_dict
+variable {κ β : Type} [BEq κ]
+
+/-- `d[k] = v` on an insertion-ordered Python `dict`: an existing key keeps its position and takes the new value,
+a new key is appended. -/
+def dictSet (d : List (κ × β)) (k : κ) (v : β) : List (κ × β) :=
+  if d.any (fun e => e.1 == k) then d.map (fun e => if e.1 == k then (e.1, v) else e) else d ++ [(k, v)]
+
+/-- `System.__init__` (system.py:29-30): `self.observables = {obs.name: obs for obs in observables}` — observables
+with the same `name` collapse to ONE entry (the last one, at the position of the first). -/
+def systemInit (obs : List (κ × β)) : List (κ × β) := obs.foldl (fun d o => dictSet d o.1 o.2) []
+
+variable {σ : Type} {α : Type} [Add α] [Mul α] [Neg α] [Sub α] [Div α] [Zero α] [One α] [Transc α]
+
+/-- `System(*observables).statistics(...)` for named observables `(obs.name, per-sample values of obs)`: the
+returned dictionary `name ↦ {mean, variance, std_error, num_samples}` in dictionary order, and the sampler calls. -/
+def systemStatistics (env : Env σ) (obs : List (κ × (σ → List α))) (a : Args σ) :
+    Except PyErr (List (κ × Stat α) × List (SampleCall σ)) :=
+  let d := systemInit obs
+  match sysStatistics env (d.map (·.2)) a with
+  | .error e => .error e
+  | .ok r => .ok ((d.map (·.1)).zip r.1, r.2)
+
+/-- `System.statistics_from_samples(nn_state, samples)` (system.py:128-150): one `statistics_from_samples` per
+dictionary entry, in dictionary order; the first failure propagates. -/
+def systemFromSamples (obs : List (κ × (σ → List α))) (samples : σ) : Except PyErr (List (κ × Stat α)) :=
+  collect ((systemInit obs).map (fun o =>
+    match fromSamples (o.2 samples) with
+    | .error e => .error e
+    | .ok s => .ok (o.1, s)))
+
+end system_dict
 end Stats
 end QV
